@@ -313,6 +313,43 @@ func (it *Interp) Step(t []string, op string) string {
 			panic("bad module")
 		}
 		return vh.List(xs)
+	case "ctrlids":
+		res := str(t[2])
+		var objs []interface{}
+		switch t[1] {
+		case "flow":
+			for _, c := range flowTcs(res) {
+				objs = append(objs, c)
+			}
+		case "hot":
+			for _, c := range hotTcs(res) {
+				objs = append(objs, c)
+			}
+		case "cb":
+			for _, c := range cbBreakers(res) {
+				objs = append(objs, c)
+			}
+		default:
+			panic("bad module")
+		}
+		// identity classes in first-appearance order
+		var firsts []interface{}
+		var xs []string
+		for _, o := range objs {
+			k := -1
+			for i, f := range firsts {
+				if f == o {
+					k = i
+					break
+				}
+			}
+			if k < 0 {
+				k = len(firsts)
+				firsts = append(firsts, o)
+			}
+			xs = append(xs, strconv.Itoa(k))
+		}
+		return vh.List(xs)
 	case "probe":
 		return it.probe(t)
 	}
